@@ -382,3 +382,12 @@ def splitraw(rng, nblocks):
                 out.append(out[-d])
         out += randbytes(rng, BLK - (len(out) - start))
     return bytes(out)
+
+
+def mtlevel_dirs(rng):
+    """(input chunk sizes, directive string) for a streaming compression that changes the level in mid-frame AFTER the first job of a worker-thread
+    compression has been posted (level 1/3: job size 2 MiB): 'u' raises the level to 12, 'w' lowers it to 1; both apply to the jobs created afterwards."""
+    ins, avg = rng.choice([("300000", 300000), ("1000000", 1000000), ("100000,700000", 400000), ("65536", 65536)])
+    k = rng.randint(2300000 // avg + 1, 3600000 // avg)
+    tail = rng.choice(["c" * 400, "c" * (2200000 // avg + 1) + "w" + "c" * 400, "c" * (4200000 // avg + 1) + "w" + "c" * 400])
+    return ins, "c" * k + "u" + tail
